@@ -398,6 +398,15 @@ func (g *Gen) maybeMacro(o *Op) {
 			o.BadMacro = true
 			return
 		}
+		if g.R.Chance(1, 4) {
+			// the macros address properties of a nested object
+			o.X[name] = `{"seq":7,"meta":{"rev":"3-c","deep":{"x":1}},"k":2}`
+			o.Macros = append(o.Macros, Macro{Path: name + ".meta.cas", Type: 0})
+			if g.R.Bool() {
+				o.Macros = append(o.Macros, Macro{Path: name + ".meta.deep.crc", Type: 1})
+			}
+			return
+		}
 		o.Macros = append(o.Macros, Macro{Path: name + ".cas", Type: 0})
 		if g.R.Bool() {
 			o.Macros = append(o.Macros, Macro{Path: name + ".crc", Type: 1})
